@@ -8,6 +8,7 @@ pub mod elemw_ {
 use super::*;
 use vstd::prelude::*;
 use crate::writer_::*;
+use crate::writer_async_::*;
 use crate::build_::*;
 use crate::escfn_::cow_str_bytes;
 
@@ -467,6 +468,93 @@ impl<'a, W: Write> ElementWriter<'a, W> {
                 && #[trigger] wrote(w2g, Event::End(en), *self.writer));
             assert(end_written(self.start_tag, *self.writer));
         }
+        Ok(self.writer)
+    }
+//@end
+}
+// ---- the asynchronous copies (src/writer/async_tokio.rs), `async` / `.await` erased: the same bytes (C09) ----
+impl<'a, W: Write> ElementWriter<'a, W> {
+//@extract writer_async::ElementWriter::write_text_content_async | src/writer/async_tokio.rs :: impl<'a, W: AsyncWrite + Unpin> ElementWriter<'a, W> :: fn write_text_content_async | serves=C09 features=async-tokio drop=async,await
+//@rewrite-opt <'_> ==> 
+ pub fn write_text_content_async(self, text: BytesText) -> (r: Result<&'a mut Writer<W>>)
+        requires self.ew_inv(),
+            // A-size for the writer: the indentation depth counter does not overflow usize
+            (*self.writer).indent matches Some(i) ==> i.current_indent_len + 4 * i.indent_size <= usize::MAX,
+        // C09 / C19: `<tag>` + the content + `</name>` -- the SAME name --, on THIS writer; indentation adds only "\n" + indent before
+        // markup that does not follow text
+        ensures r matches Ok(w) ==> *final(w) == *final(self.writer) && ind_after((*old(self.writer)).indent, (*w).indent)
+            && (*w).writer.out() == (*old(self.writer)).writer.out() + ind_pre((*old(self.writer)).indent, lvl_of((*old(self.writer)).indent))
+                + seq![0x3cu8] + self.start_tag.buf@ + seq![0x3eu8]
+                + text.content@
+                + seq![0x3cu8, 0x2fu8] + self.start_tag.buf@.subrange(0, self.start_tag.name_len as int) + seq![0x3eu8],
+ {
+        self.writer
+            .write_event_async(Event::Start(self.start_tag.borrow()))?;
+        self.writer.write_event_async(Event::Text(text))?;
+        self.writer
+            .write_event_async(Event::End(self.start_tag.to_end()))?;
+        Ok(self.writer)
+    }
+//@end
+//@extract writer_async::ElementWriter::write_cdata_content_async | src/writer/async_tokio.rs :: impl<'a, W: AsyncWrite + Unpin> ElementWriter<'a, W> :: fn write_cdata_content_async | serves=C09 features=async-tokio drop=async,await
+//@rewrite-opt <'_> ==> 
+ pub fn write_cdata_content_async(
+        self,
+        text: BytesCData,
+    ) -> (r: Result<&'a mut Writer<W>>)
+        requires self.ew_inv(),
+            // A-size for the writer: the indentation depth counter does not overflow usize
+            (*self.writer).indent matches Some(i) ==> i.current_indent_len + 4 * i.indent_size <= usize::MAX,
+        // C09 / C19: `<tag>` + the content + `</name>` -- the SAME name --, on THIS writer; indentation adds only "\n" + indent before
+        // markup that does not follow text
+        ensures r matches Ok(w) ==> *final(w) == *final(self.writer) && ind_after((*old(self.writer)).indent, (*w).indent)
+            && (*w).writer.out() == (*old(self.writer)).writer.out() + ind_pre((*old(self.writer)).indent, lvl_of((*old(self.writer)).indent))
+                + seq![0x3cu8] + self.start_tag.buf@ + seq![0x3eu8]
+                + seq![0x3cu8, 0x21, 0x5b, 0x43, 0x44, 0x41, 0x54, 0x41, 0x5b] + text.content@ + seq![0x5du8, 0x5d, 0x3e]
+                + seq![0x3cu8, 0x2fu8] + self.start_tag.buf@.subrange(0, self.start_tag.name_len as int) + seq![0x3eu8],
+ {
+        self.writer
+            .write_event_async(Event::Start(self.start_tag.borrow()))?;
+        self.writer.write_event_async(Event::CData(text))?;
+        self.writer
+            .write_event_async(Event::End(self.start_tag.to_end()))?;
+        Ok(self.writer)
+    }
+//@end
+//@extract writer_async::ElementWriter::write_pi_content_async | src/writer/async_tokio.rs :: impl<'a, W: AsyncWrite + Unpin> ElementWriter<'a, W> :: fn write_pi_content_async | serves=C09 features=async-tokio drop=async,await
+//@rewrite-opt <'_> ==> 
+ pub fn write_pi_content_async(self, text: BytesPI) -> (r: Result<&'a mut Writer<W>>)
+        requires self.ew_inv(),
+            // A-size for the writer: the indentation depth counter does not overflow usize
+            (*self.writer).indent matches Some(i) ==> i.current_indent_len + 4 * i.indent_size <= usize::MAX,
+        // C09 / C19: `<tag>` + the content + `</name>` -- the SAME name --, on THIS writer; indentation adds only "\n" + indent before
+        // markup that does not follow text
+        ensures r matches Ok(w) ==> *final(w) == *final(self.writer) && ind_after((*old(self.writer)).indent, (*w).indent)
+            && (*w).writer.out() == (*old(self.writer)).writer.out() + ind_pre((*old(self.writer)).indent, lvl_of((*old(self.writer)).indent))
+                + seq![0x3cu8] + self.start_tag.buf@ + seq![0x3eu8]
+                + ind_nl((*old(self.writer)).indent, lvl_of((*old(self.writer)).indent) + step_of((*old(self.writer)).indent)) + seq![0x3cu8, 0x3f] + text.content.buf@ + seq![0x3fu8, 0x3e]
+                + ind_nl((*old(self.writer)).indent, lvl_of((*old(self.writer)).indent))
+                + seq![0x3cu8, 0x2fu8] + self.start_tag.buf@.subrange(0, self.start_tag.name_len as int) + seq![0x3eu8],
+ {
+        self.writer
+            .write_event_async(Event::Start(self.start_tag.borrow()))?;
+        self.writer.write_event_async(Event::PI(text))?;
+        self.writer
+            .write_event_async(Event::End(self.start_tag.to_end()))?;
+        Ok(self.writer)
+    }
+//@end
+//@extract writer_async::ElementWriter::write_empty_async | src/writer/async_tokio.rs :: impl<'a, W: AsyncWrite + Unpin> ElementWriter<'a, W> :: fn write_empty_async | serves=C09 features=async-tokio drop=async,await
+//@rewrite-opt <'_> ==> 
+ pub fn write_empty_async(self) -> (r: Result<&'a mut Writer<W>>)
+        requires self.ew_inv(),
+            // A-size for the writer: the indentation depth counter does not overflow usize
+            (*self.writer).indent matches Some(i) ==> i.current_indent_len + 4 * i.indent_size <= usize::MAX,
+        // C09: one Empty event with the assembled tag
+        ensures r matches Ok(w) ==> *final(w) == *final(self.writer) && wrote(*old(self.writer), Event::Empty(self.start_tag), *w),
+ {
+        self.writer
+            .write_event_async(Event::Empty(self.start_tag))?;
         Ok(self.writer)
     }
 //@end
